@@ -687,9 +687,9 @@ func cmdCheck(args []string) int {
 			fmt.Fprintln(os.Stderr, "check:", err)
 			return 2
 		}
-		budget := "40s"
+		budget := "20s"
 		if *tier == "thorough" {
-			budget = "120s"
+			budget = "90s"
 		}
 		sh := exec.Command(self, "shrink", "-file", path, "-budget", budget)
 		sh.Stderr = os.Stderr
